@@ -144,6 +144,18 @@ message type, identity or undecodable public key, own id -/
 theorem receiveID_total (w : Wire) : (receiveID Cfg.current w).isPanic = false := by
   rw [guards_present]; exact Handlers.receiveID_total w
 
+/-- **client.dispatch**: any sequence of own requests, cancellations and reply packets with ANY
+RequestNonce (duplicate reply, nonce never issued, reply before any request, reply after the
+requester gave up): a reply without pending request is dropped, the link stays alive -/
+theorem dispatch_total (evs : List DispEv) :
+    (dispRun Cfg.current {} evs).1.alive = true ∧ ∀ o ∈ (dispRun Cfg.current {} evs).2, o.isPanic = false := by
+  rw [guards_present]; exact dispRun_total evs {} rfl
+
+/-- … and a following honest round trip still succeeds: the next request is matched by the reply with its nonce -/
+theorem dispatch_still_serves (evs : List DispEv) :
+    ∃ k, (dispRun Cfg.current {} (evs ++ [.send, .reply k])).2.getLast? = some (.ok "matched") := by
+  rw [guards_present]; exact disp_serves evs
+
 theorem messageDispatch_total (f : Feed) : (messageDispatch Cfg.current f).isPanic = false := by
   rw [guards_present]; exact Handlers.messageDispatch_total f
 
@@ -188,5 +200,9 @@ example : (listenStep { Cfg.all with listenName := false } (.members [25, 3])).i
 example : listenStep Cfg.all (.members [25, 3, 20]) = .ok "2" := by decide
 example : (choseSubmitter { Cfg.all with groupInfoIds := false } 5 0).isPanic = true := by decide
 example : (messageDispatch { Cfg.all with mdNil := false } .nilMsg).isPanic = true := by decide
+example : (dispRun Cfg.all {} [.send, .reply 0, .reply 0, .reply 3735928559, .send, .cancel 1, .reply 1]).2
+    = [.ok "sent 0", .ok "matched", .dropped, .dropped, .ok "sent 1", .ok "", .ok "late"] := by decide
+example : (dispRun { Cfg.all with dispReplyNil := false } {} [.send, .reply 0, .reply 0]).2.any Out.isPanic = true := by decide
+example : (dispRun { Cfg.all with dispReplyNil := false } {} [.reply 3735928559]).2.any Out.isPanic = true := by decide
 
 end Dos.Props.C12
